@@ -1,0 +1,11 @@
+//go:build !verif
+
+// Package vhook provides instrumentation points for external verification
+// harnesses. Without the "verif" build tag all of its functions are empty.
+package vhook
+
+// Point marks a scheduling point. It is a no-op in ordinary builds.
+func Point(site string, args ...any) {}
+
+// Event marks a state change. It is a no-op in ordinary builds.
+func Event(name string, args ...any) {}
